@@ -17,7 +17,7 @@ out, steps = P.prepare(m, build + '/work', fp_restrict=cfg.get('fp_restrict'), r
 loops = P.show_loops(out)
 us, table = P.unwindset_for(loops, cfg['rules'], cfg['unwind'])
 log = build + '/work/' + name + '.cbmc.json'
-r = P.run_cbmc(out, cfg['unwind'], us, tmo, cfg.get('mem_gb', 16), log, extra=['--verbosity', '8'], trace='--trace' in sys.argv)
+r = P.run_cbmc(out, cfg['unwind'], us, tmo, cfg.get('mem_gb', 16), log, trace='--trace' in sys.argv)
 print(r['status'], 'wall %.1f' % r['wall_s'], r.get('stats'))
 c = P.classify(r['props'])
 for k, v in c.items():
